@@ -193,6 +193,12 @@ class Translator:
             # symmetry between occurrences: ncdf(-x) = 1 - ncdf(x)
             for (_, zb, zb_app) in occ:
                 ax.append(z3.Implies(zarg == -zb, zapp + zb_app == 1))
+        if fname in ('npdf', 'ncdf'):
+            # u*ncdf(u) + npdf(u) > 0  (it is the integral of ncdf up to u)
+            other = 'ncdf' if fname == 'npdf' else 'npdf'
+            for (_, zb, zb_app) in self.apps.get(other, []):
+                n_, p_ = (zb_app, zapp) if fname == 'npdf' else (zapp, zb_app)
+                ax.append(z3.Implies(zarg == zb, zarg * n_ + p_ > 0))
         if fname == 'npdf':
             for (_, zb, zb_app) in occ:
                 ax.append(z3.Implies(zarg == -zb, zapp == zb_app))
